@@ -108,6 +108,9 @@ Record facts := {
   f_sniff_chain : list sniff_branch;          (* open_stream, in source order *)
   f_sniff_peek : nat;                         (* how many bytes open_stream asks peek() for *)
   f_writer_passthrough : bool;                (* open_stream returns fp unchanged when "w" in mode *)
+  f_private_codec_state : bool;               (* every branch of open_stream / open_path builds its own (de)compressor object
+                                                 for the stream it opens (none is a module-level instance shared between
+                                                 streams) -- what makes [decompress] a function of THIS stream's bytes *)
   f_ext_chain : list ext_branch;              (* open_path, in source order *)
   f_path_fallback_sniffs : bool;              (* open_path: no extension matched, binary read of a file -> open_stream *)
   f_stdin_fallback_sniffs : bool;             (* open_path: path is "-" / "" (standard input), binary read -> open_stream *)
@@ -426,4 +429,4 @@ Definition adapters_ok (F : facts) : bool :=
 
 Definition facts_ok (F : facts) : bool :=
   sniff_chain_ok F && ext_chain_ok F && cont_chain_ok F && containers_vs_codecs_ok F && adapters_ok F &&
-  f_writer_passthrough F && f_path_fallback_sniffs F && f_stdin_fallback_sniffs F.
+  f_writer_passthrough F && f_path_fallback_sniffs F && f_stdin_fallback_sniffs F && f_private_codec_state F.
